@@ -18,7 +18,8 @@
    dropped by a DIFFERENT (the actual, later) run.  See the report at the end. *)
 From Coq Require Import List NArith ZArith Bool Lia.
 From TexModel Require Import Base Tables Chars Tokenizer Tree Reader.
-From TexProofs Require Import ReaderLen ReaderTotal ReaderCons ConsBridge.
+From TexProofs Require Import ReaderLen ReaderTotal ReaderCons ConsTop ConsBridge.
+From TexProofs Require TokInverse.
 Import ListNotations.
 
 (* ====================================================================== *)
@@ -223,6 +224,184 @@ Proof.
   destruct l' as [|n' l'']; [discriminate H2|]. inversion H2. eauto.
 Qed.
 
+(* ------------------------------------------------------ fuel monotonicity *)
+(* (the same statement is proved in ReaderComplete.v; repeated here so that
+   this file depends only on finished files) *)
+
+Definition fref {A} (r r' : res A) : Prop := r = Err OutOfFuel \/ r = r'.
+
+Lemma fref_refl {A} (r : res A) : fref r r.
+Proof. right. reflexivity. Qed.
+
+Lemma fref_bind {A B} (r r' : res A) (k k' : A -> res B) :
+  fref r r' -> (forall a, fref (k a) (k' a)) -> fref (bind r k) (bind r' k').
+Proof.
+  intros [-> | ->] H; [left; reflexivity|].
+  destruct r' as [a|e]; simpl; [apply H | right; reflexivity].
+Qed.
+
+Lemma fref_ok {A} (r r' : res A) a : fref r r' -> r = Ok a -> r' = Ok a.
+Proof. intros [H | H] E; [rewrite E in H; discriminate H | rewrite <- H; exact E]. Qed.
+
+Definition fm_expr f := forall f' skip strict m toks, (f <= f')%nat ->
+  fref (read_expr f skip strict m toks) (read_expr f' skip strict m toks).
+Definition fm_item f := forall f' acc toks, (f <= f')%nat ->
+  fref (read_item_loop f acc toks) (read_item_loop f' acc toks).
+Definition fm_math f := forall f' k pos strict acc toks, (f <= f')%nat ->
+  fref (read_math_loop f k pos strict acc toks) (read_math_loop f' k pos strict acc toks).
+Definition fm_env f := forall f' name args pos skip strict m acc toks, (f <= f')%nat ->
+  fref (read_env_loop f name args pos skip strict m acc toks)
+       (read_env_loop f' name args pos skip strict m acc toks).
+Definition fm_command f := forall f' nreq nopt sk strict m toks, (f <= f')%nat ->
+  fref (read_command f nreq nopt sk strict m toks) (read_command f' nreq nopt sk strict m toks).
+Definition fm_args f := forall f' nreq nopt strict m toks, (f <= f')%nat ->
+  fref (read_args f nreq nopt strict m toks) (read_args f' nreq nopt strict m toks).
+Definition fm_opt f := forall f' args nopt strict m toks, (f <= f')%nat ->
+  fref (read_arg_optional f args nopt strict m toks) (read_arg_optional f' args nopt strict m toks).
+Definition fm_req f := forall f' args nreq strict m toks, (f <= f')%nat ->
+  fref (read_arg_required f args nreq strict m toks) (read_arg_required f' args nreq strict m toks).
+Definition fm_arg f := forall f' c strict m toks, (f <= f')%nat ->
+  fref (read_arg f c strict m toks) (read_arg f' c strict m toks).
+Definition fm_argloop f := forall f' k pos strict m acc toks, (f <= f')%nat ->
+  fref (read_arg_loop f k pos strict m acc toks) (read_arg_loop f' k pos strict m acc toks).
+
+Definition fm_all f :=
+  fm_expr f /\ fm_item f /\ fm_math f /\ fm_env f /\ fm_command f /\ fm_args f /\
+  fm_opt f /\ fm_req f /\ fm_arg f /\ fm_argloop f.
+
+Ltac fmstep :=
+  match goal with
+  | |- fref ?x ?x => apply fref_refl
+  | |- fref (bind _ _) (bind _ _) => apply fref_bind; [ | let a := fresh "a" in intros a ]
+  | IH : fm_expr ?f |- fref (read_expr ?f _ _ _ _) _ => apply IH; assumption
+  | IH : fm_item ?f |- fref (read_item_loop ?f _ _) _ => apply IH; assumption
+  | IH : fm_math ?f |- fref (read_math_loop ?f _ _ _ _ _) _ => apply IH; assumption
+  | IH : fm_env ?f |- fref (read_env_loop ?f _ _ _ _ _ _ _ _) _ => apply IH; assumption
+  | IH : fm_command ?f |- fref (read_command ?f _ _ _ _ _ _) _ => apply IH; assumption
+  | IH : fm_args ?f |- fref (read_args ?f _ _ _ _ _) _ => apply IH; assumption
+  | IH : fm_opt ?f |- fref (read_arg_optional ?f _ _ _ _ _) _ => apply IH; assumption
+  | IH : fm_req ?f |- fref (read_arg_required ?f _ _ _ _ _) _ => apply IH; assumption
+  | IH : fm_arg ?f |- fref (read_arg ?f _ _ _ _) _ => apply IH; assumption
+  | IH : fm_argloop ?f |- fref (read_arg_loop ?f _ _ _ _ _ _) _ => apply IH; assumption
+  | |- fref (match ?x with _ => _ end) _ => destruct_innermost x
+  end.
+
+Lemma fm_all_holds : forall f, fm_all f.
+Proof.
+  induction f as [|f IH].
+  { unfold fm_all, fm_expr, fm_item, fm_math, fm_env, fm_command, fm_args,
+      fm_opt, fm_req, fm_arg, fm_argloop.
+    repeat match goal with |- _ /\ _ => split end; intros; left; reflexivity. }
+  destruct IH as (Me & Mi & Mm & Mv & Mc & Ma & Mo & Mr & Mg & Ml).
+  unfold fm_all.
+  repeat match goal with |- _ /\ _ => split end;
+    [unfold fm_expr | unfold fm_item | unfold fm_math | unfold fm_env
+     | unfold fm_command | unfold fm_args | unfold fm_opt | unfold fm_req
+     | unfold fm_arg | unfold fm_argloop].
+  - intros f' skip strict m toks Hle. destruct f' as [|f']; [lia|]. apply le_S_n in Hle.
+    simpl. repeat fmstep.
+  - intros f' acc toks Hle. destruct f' as [|f']; [lia|]. apply le_S_n in Hle.
+    simpl. repeat fmstep.
+  - intros f' k pos strict acc toks Hle. destruct f' as [|f']; [lia|]. apply le_S_n in Hle.
+    simpl. repeat fmstep.
+  - intros f' name args pos skip strict m acc toks Hle. destruct f' as [|f']; [lia|].
+    apply le_S_n in Hle. simpl. repeat fmstep.
+  - intros f' nreq nopt sk strict m toks Hle. destruct f' as [|f']; [lia|]. apply le_S_n in Hle.
+    simpl. repeat fmstep.
+  - intros f' nreq nopt strict m toks Hle. destruct f' as [|f']; [lia|]. apply le_S_n in Hle.
+    simpl. repeat fmstep.
+  - intros f' args nopt strict m toks Hle. destruct f' as [|f']; [lia|]. apply le_S_n in Hle.
+    simpl. repeat fmstep.
+  - intros f' args nreq strict m toks Hle. destruct f' as [|f']; [lia|]. apply le_S_n in Hle.
+    simpl. repeat fmstep.
+  - intros f' c strict m toks Hle. destruct f' as [|f']; [lia|]. apply le_S_n in Hle.
+    simpl. repeat fmstep.
+  - intros f' k pos strict m acc toks Hle. destruct f' as [|f']; [lia|]. apply le_S_n in Hle.
+    simpl. repeat fmstep.
+Qed.
+
+Lemma command_mono f f' nreq nopt sk m toks r : (f <= f')%nat ->
+  read_command f nreq nopt sk true m toks = Ok r -> read_command f' nreq nopt sk true m toks = Ok r.
+Proof.
+  intros Hle H. destruct (fm_all_holds f) as (_ & _ & _ & _ & M & _).
+  eapply fref_ok; [apply M; exact Hle | exact H].
+Qed.
+
+Lemma expr_mono f f' skip strict m toks r : (f <= f')%nat ->
+  read_expr f skip strict m toks = Ok r -> read_expr f' skip strict m toks = Ok r.
+Proof.
+  intros Hle H. destruct (fm_all_holds f) as (M & _).
+  eapply fref_ok; [apply M; exact Hle | exact H].
+Qed.
+
+(* a peek is the command read one token later *)
+Lemma peek_shift f nr no m t l :
+  read_command f nr no 1 true m (t :: l) = read_command f nr no 0 true m l.
+Proof.
+  destruct f as [|f]; [reflexivity|]. cbn [read_command].
+  replace (length (t :: l) <? 1)%nat with false by reflexivity.
+  replace (length l <? 0)%nat with false by (symmetry; apply Nat.ltb_ge; lia).
+  reflexivity.
+Qed.
+
+Lemma escape_not_math t : is_tc TEscape t = true -> math_kind_of_begin (tcat t) = None.
+Proof. intro H. apply is_tc_eq in H. rewrite H. vm_compute. reflexivity. Qed.
+
+(* whenever read_expr succeeds on an Escape, so does the peek at that place *)
+Lemma expr_peek f skip m t l r :
+  read_expr f skip true m (t :: l) = Ok r -> is_tc TEscape t = true ->
+  exists x, read_command f (-1) (-1) 1 true m (t :: l) = Ok x.
+Proof.
+  intros H Et. destruct f as [|f]; [discriminate H|]. cbn [read_expr] in H.
+  rewrite (escape_not_math t Et), Et in H.
+  apply bind_ok in H. destruct H as (x & Hc & _). exists x.
+  rewrite peek_shift. eapply command_mono; [|exact Hc]. lia.
+Qed.
+
+(* ------------------------------------------- the fragment without \item *)
+
+(* nothing that read_args would take as an argument follows *)
+Definition noarg (Y : list token) : bool :=
+  match hdc (after_spacer Y) with
+  | Some TGroupBegin | Some TBracketBegin => false
+  | _ => true
+  end.
+
+Definition end_ok (l : list token) : bool :=
+  match l with
+  | _ :: _ :: _ :: Y => if simple_name_group l then noarg Y else true
+  | _ => true
+  end.
+
+(* no \item; every \end{name} is followed by something that is not a group *)
+Fixpoint frag (toks : list token) : bool :=
+  match toks with
+  | e :: ((n :: r) as toks') =>
+    (if is_tc TEscape e
+     then negb (str_eqb (ttext n) s_item) &&
+          (if str_eqb (ttext n) s_end then end_ok (after_spacer r) else true)
+     else true) && frag toks'
+  | _ => true
+  end.
+
+Lemma frag_suffix a b : frag (a ++ b) = true -> frag b = true.
+Proof.
+  induction a as [|x a IH]; simpl; auto.
+  destruct (a ++ b) eqn:E.
+  - destruct a; simpl in E; [subst; reflexivity | discriminate].
+  - intro H. apply andb_true_iff in H. apply IH. tauto.
+Qed.
+
+Lemma frag_tail t l : frag (t :: l) = true -> frag l = true.
+Proof. apply (frag_suffix [t] l). Qed.
+
+Lemma noarg_LKs a b : LKs a b -> noarg a = noarg b.
+Proof. unfold LKs, noarg. intros ->. reflexivity. Qed.
+
+Definition succ {A} (F : list token -> res (A * list token))
+           (R : list token -> list token -> Prop) (kept rest : list token) (v : A) : Prop :=
+  forall Y, R rest Y -> F (kept ++ Y) = Ok (v, Y).
+
 Section FP.
 Variable SK : list str.
 Notation Hyp := (Hyp SK).
@@ -231,7 +410,8 @@ Definition fp_expr f := forall skip m toks e rest,
   sub_skip SK skip -> Hyp toks -> read_expr f skip true m toks = Ok (e, rest) ->
   exists used, toks = used ++ rest /\ (nobare e = true ->
     exists kept, Kept used kept /\ estr e = texts kept /\ LKP used kept /\
-      det (fun g l => read_expr g skip true m l) LK kept rest e).
+      det (fun g l => read_expr g skip true m l) LK kept rest e /\
+      (frag toks = true -> succ (fun l => read_expr f skip true m l) LK kept rest e)).
 Definition fp_item f := forall acc toks es rest,
   Hyp toks -> read_item_loop f acc toks = Ok (es, rest) ->
   exists used new, toks = used ++ rest /\ es = acc ++ new /\ (forallb nobare new = true ->
@@ -242,46 +422,58 @@ Definition fp_math f := forall k pos acc toks e rest,
   exists used new, toks = used ++ rest /\ e = EMath k (acc ++ new) pos /\
    (forallb nobare new = true ->
     exists kept, Kept used kept /\ estr_list new ++ math_end k = texts kept /\ LKU used kept /\
-      det (fun g l => read_math_loop g k pos true acc l) anyR kept rest e).
+      det (fun g l => read_math_loop g k pos true acc l) anyR kept rest e /\
+      (frag toks = true -> succ (fun l => read_math_loop f k pos true acc l) anyR kept rest e)).
 Definition fp_env f := forall name args pos skip m acc toks e rest,
   sub_skip SK skip -> Hyp toks ->
   read_env_loop f name args pos skip true m acc toks = Ok (e, rest) ->
   exists used new, toks = used ++ rest /\ e = ENamed name args (acc ++ new) pos /\
    (forallb nobare new = true ->
     exists kept, Kept used kept /\ estr_list new ++ env_end name = texts kept /\ LKU used kept /\
-      det (fun g l => read_env_loop g name args pos skip true m acc l) anyR kept rest e).
+      det (fun g l => read_env_loop g name args pos skip true m acc l) anyR kept rest e /\
+      (frag toks = true ->
+       succ (fun l => read_env_loop f name args pos skip true m acc l) anyR kept rest e)).
 Definition fp_command f := forall nreq nopt m toks name args rest,
   Hyp toks -> read_command f nreq nopt 0 true m toks = Ok ((name, args), rest) ->
   (toks = [] /\ name = [] /\ args = [] /\ rest = []) \/
   exists nt used, toks = nt :: used ++ rest /\ name = ttext nt /\ (okargs args = true ->
     exists kept, Kept used kept /\ estr_list args = texts kept /\
-      det (fun g l => read_command g nreq nopt 0 true m l) LK (nt :: kept) rest (name, args)).
+      det (fun g l => read_command g nreq nopt 0 true m l) LK (nt :: kept) rest (name, args) /\
+      (frag toks = true ->
+       succ (fun l => read_command f nreq nopt 0 true m l) LK (nt :: kept) rest (name, args))).
 Definition fp_args f := forall nreq nopt m toks args rest,
   Hyp toks -> read_args f nreq nopt true m toks = Ok (args, rest) ->
   exists used, toks = used ++ rest /\ (okargs args = true ->
     exists kept, Kept used kept /\ estr_list args = texts kept /\
-      det (fun g l => read_args g nreq nopt true m l) LK kept rest args).
+      det (fun g l => read_args g nreq nopt true m l) LK kept rest args /\
+      (frag toks = true -> succ (fun l => read_args f nreq nopt true m l) LK kept rest args)).
 Definition fp_opt f := forall args nopt m toks args' n' rest,
   Hyp toks -> read_arg_optional f args nopt true m toks = Ok ((args', n'), rest) ->
   exists used new, toks = used ++ rest /\ args' = args ++ new /\ (okargs new = true ->
     exists kept, Kept used kept /\ estr_list new = texts kept /\ ArgP used kept /\
-      det (fun g l => read_arg_optional g args nopt true m l) LKs kept rest (args', n')).
+      det (fun g l => read_arg_optional g args nopt true m l) LKs kept rest (args', n') /\
+      (frag toks = true ->
+       succ (fun l => read_arg_optional f args nopt true m l) LKs kept rest (args', n'))).
 Definition fp_req f := forall args nreq m toks args' n' rest,
   Hyp toks -> read_arg_required f args nreq true m toks = Ok ((args', n'), rest) ->
   exists used new, toks = used ++ rest /\ args' = args ++ new /\ (okargs new = true ->
     exists kept, Kept used kept /\ estr_list new = texts kept /\ ArgP used kept /\
-      det (fun g l => read_arg_required g args nreq true m l) LKs kept rest (args', n')).
+      det (fun g l => read_arg_required g args nreq true m l) LKs kept rest (args', n') /\
+      (frag toks = true ->
+       succ (fun l => read_arg_required f args nreq true m l) LKs kept rest (args', n'))).
 Definition fp_arg f := forall c m toks e rest,
   tok_wf c -> Hyp toks -> read_arg f c true m toks = Ok (e, rest) ->
   exists used, toks = used ++ rest /\ is_group e = true /\ (nobare e = true ->
     exists kept, Kept used kept /\ estr e = ttext c ++ texts kept /\
-      det (fun g l => read_arg g c true m l) anyR kept rest e).
+      det (fun g l => read_arg g c true m l) anyR kept rest e /\
+      (frag toks = true -> succ (fun l => read_arg f c true m l) anyR kept rest e)).
 Definition fp_argloop f := forall k pos m acc toks e rest,
   Hyp toks -> read_arg_loop f k pos true m acc toks = Ok (e, rest) ->
   exists used new, toks = used ++ rest /\ e = EGroup k (acc ++ new) pos /\
    (forallb nobare new = true ->
     exists kept, Kept used kept /\ estr_list new ++ group_end k = texts kept /\ LKU used kept /\
-      det (fun g l => read_arg_loop g k pos true m acc l) anyR kept rest e).
+      det (fun g l => read_arg_loop g k pos true m acc l) anyR kept rest e /\
+      (frag toks = true -> succ (fun l => read_arg_loop f k pos true m acc l) anyR kept rest e)).
 
 Definition fp_all f :=
   fp_expr f /\ fp_item f /\ fp_math f /\ fp_env f /\ fp_command f /\ fp_args f /\
@@ -300,8 +492,10 @@ Proof.
       apply Hyp_head_wf in Hy. apply Hy. apply is_group_end_tok. exact Eend. }
     destruct (group_end_cats _ _ Eend) as [S1 S2].
     split; [apply LKU_plain; assumption|].
-    intros g Y r _ HB. destruct g as [|g]; [discriminate HB|].
-    cbn [read_arg_loop app] in HB. rewrite Eend in HB. inversion HB. reflexivity.
+    split.
+    { intros g Y r _ HB. destruct g as [|g]; [discriminate HB|].
+      cbn [read_arg_loop app] in HB. rewrite Eend in HB. inversion HB. reflexivity. }
+    intros _ Y _. cbn [read_arg_loop app]. rewrite Eend. reflexivity.
   - apply bind_ok in H. destruct H as ([e1 src1] & He & H).
     apply Ce in He; [|exact (no_skip SK) | exact Hy]. destruct He as (u1 & Eu1 & C1).
     apply Cl in H; [|rewrite Eu1 in Hy; eapply Hyp_suffix; exact Hy].
@@ -310,20 +504,27 @@ Proof.
     split; [rewrite Eu1, Eu2, <- app_assoc; reflexivity|].
     split; [rewrite <- app_assoc; reflexivity|].
     intro Hn. simpl in Hn. apply andb_true_iff in Hn. destruct Hn as [Hn1 Hn2].
-    destruct (C1 Hn1) as (k1 & K1 & T1 & L1 & D1). destruct (C2 Hn2) as (k2 & K2 & T2 & L2 & D2).
+    destruct (C1 Hn1) as (k1 & K1 & T1 & L1 & D1 & U1).
+    destruct (C2 Hn2) as (k2 & K2 & T2 & L2 & D2 & U2).
     exists (k1 ++ k2). split; [apply Kept_app; assumption|]. split.
     { change (estr_list (e1 :: new)) with (estr e1 ++ estr_list new).
       rewrite <- app_assoc, T1, T2, texts_app. reflexivity. }
     split; [apply LKP_LKU_app; assumption|].
-    intros g Y r _ HB. destruct g as [|g]; [discriminate HB|].
-    rewrite <- app_assoc in HB.
-    assert (Hlk : LK (t :: src) (k1 ++ k2 ++ Y)).
-    { rewrite Eu1, Eu2. apply L1, L2. }
-    destruct (LK_hd _ _ _ _ Hlk eq_refl) as (l' & EL).
-    cbn [read_arg_loop] in HB. rewrite EL in HB. rewrite Eend in HB. rewrite <- EL in HB.
-    apply bind_ok in HB. destruct HB as ([e1' s1'] & HB1 & HB2).
-    apply D1 in HB1; [|rewrite Eu2; apply L2]. inversion HB1; subst e1' s1'.
-    apply D2 in HB2; [exact HB2 | exact I].
+    assert (Hlk : forall Y, LK (t :: src) (k1 ++ k2 ++ Y)).
+    { intro Y. rewrite Eu1, Eu2. apply L1, L2. }
+    split.
+    { intros g Y r _ HB. destruct g as [|g]; [discriminate HB|].
+      rewrite <- app_assoc in HB.
+      destruct (LK_hd _ _ _ _ (Hlk Y) eq_refl) as (l' & EL).
+      cbn [read_arg_loop] in HB. rewrite EL in HB. rewrite Eend in HB. rewrite <- EL in HB.
+      apply bind_ok in HB. destruct HB as ([e1' s1'] & HB1 & HB2).
+      apply D1 in HB1; [|rewrite Eu2; apply L2]. inversion HB1; subst e1' s1'.
+      apply D2 in HB2; [exact HB2 | exact I]. }
+    intros Hf Y _. rewrite <- app_assoc.
+    destruct (LK_hd _ _ _ _ (Hlk Y) eq_refl) as (l' & EL).
+    cbn [read_arg_loop]. rewrite EL. rewrite Eend. rewrite <- EL.
+    rewrite (U1 Hf (k2 ++ Y)); [|rewrite Eu2; apply L2]. cbn [bind].
+    apply U2; [rewrite Eu1 in Hf; eapply frag_suffix; exact Hf | exact I].
 Qed.
 
 Lemma fp_arg_S f : fp_all f -> fp_arg (S f).
@@ -333,12 +534,14 @@ Proof.
   destruct (group_kind_of_begin (tcat c)) as [k|] eqn:Ek; [|discriminate].
   apply Cl in H; [|exact Hy]. destruct H as (used & new & Eu & -> & C).
   exists used. split; [exact Eu|]. split; [reflexivity|].
-  cbn [nobare app]. intro Hn. destruct (C Hn) as (kept & K & T & _ & D).
+  cbn [nobare app]. intro Hn. destruct (C Hn) as (kept & K & T & _ & D & U).
   exists kept. split; [exact K|]. split.
   { cbn [estr]. change (concat (map estr new)) with (estr_list new). rewrite T. f_equal.
     symmetry. apply Wc. apply group_kind_begin_tok. exact Ek. }
-  intros g Y r _ HB. destruct g as [|g]; [discriminate HB|].
-  cbn [read_arg] in HB. rewrite Ek in HB. apply D in HB; [exact HB | exact I].
+  split.
+  { intros g Y r _ HB. destruct g as [|g]; [discriminate HB|].
+    cbn [read_arg] in HB. rewrite Ek in HB. apply D in HB; [exact HB | exact I]. }
+  intros Hf Y _. cbn [read_arg]. rewrite Ek. apply U; [exact Hf | exact I].
 Qed.
 
 Lemma fp_math_S f : fp_all f -> fp_math (S f).
@@ -354,8 +557,10 @@ Proof.
       apply Hyp_head_wf in Hy. apply Hy. apply is_math_end_tok. exact Eend. }
     destruct (math_end_cats _ _ Eend) as [S1 S2].
     split; [apply LKU_plain; assumption|].
-    intros g Y r _ HB. destruct g as [|g]; [discriminate HB|].
-    cbn [read_math_loop app] in HB. rewrite Eend in HB. inversion HB. reflexivity.
+    split.
+    { intros g Y r _ HB. destruct g as [|g]; [discriminate HB|].
+      cbn [read_math_loop app] in HB. rewrite Eend in HB. inversion HB. reflexivity. }
+    intros _ Y _. cbn [read_math_loop app]. rewrite Eend. reflexivity.
   - apply bind_ok in H. destruct H as ([e1 src1] & He & H).
     apply Ce in He; [|exact (no_skip SK) | exact Hy]. destruct He as (u1 & Eu1 & C1).
     apply Cm in H; [|rewrite Eu1 in Hy; eapply Hyp_suffix; exact Hy].
@@ -364,20 +569,27 @@ Proof.
     split; [rewrite Eu1, Eu2, <- app_assoc; reflexivity|].
     split; [rewrite <- app_assoc; reflexivity|].
     intro Hn. simpl in Hn. apply andb_true_iff in Hn. destruct Hn as [Hn1 Hn2].
-    destruct (C1 Hn1) as (k1 & K1 & T1 & L1 & D1). destruct (C2 Hn2) as (k2 & K2 & T2 & L2 & D2).
+    destruct (C1 Hn1) as (k1 & K1 & T1 & L1 & D1 & U1).
+    destruct (C2 Hn2) as (k2 & K2 & T2 & L2 & D2 & U2).
     exists (k1 ++ k2). split; [apply Kept_app; assumption|]. split.
     { change (estr_list (e1 :: new)) with (estr e1 ++ estr_list new).
       rewrite <- app_assoc, T1, T2, texts_app. reflexivity. }
     split; [apply LKP_LKU_app; assumption|].
-    intros g Y r _ HB. destruct g as [|g]; [discriminate HB|].
-    rewrite <- app_assoc in HB.
-    assert (Hlk : LK (t :: src) (k1 ++ k2 ++ Y)).
-    { rewrite Eu1, Eu2. apply L1, L2. }
-    destruct (LK_hd _ _ _ _ Hlk eq_refl) as (l' & EL).
-    cbn [read_math_loop] in HB. rewrite EL in HB. rewrite Eend in HB. rewrite <- EL in HB.
-    apply bind_ok in HB. destruct HB as ([e1' s1'] & HB1 & HB2).
-    apply D1 in HB1; [|rewrite Eu2; apply L2]. inversion HB1; subst e1' s1'.
-    apply D2 in HB2; [exact HB2 | exact I].
+    assert (Hlk : forall Y, LK (t :: src) (k1 ++ k2 ++ Y)).
+    { intro Y. rewrite Eu1, Eu2. apply L1, L2. }
+    split.
+    { intros g Y r _ HB. destruct g as [|g]; [discriminate HB|].
+      rewrite <- app_assoc in HB.
+      destruct (LK_hd _ _ _ _ (Hlk Y) eq_refl) as (l' & EL).
+      cbn [read_math_loop] in HB. rewrite EL in HB. rewrite Eend in HB. rewrite <- EL in HB.
+      apply bind_ok in HB. destruct HB as ([e1' s1'] & HB1 & HB2).
+      apply D1 in HB1; [|rewrite Eu2; apply L2]. inversion HB1; subst e1' s1'.
+      apply D2 in HB2; [exact HB2 | exact I]. }
+    intros Hf Y _. rewrite <- app_assoc.
+    destruct (LK_hd _ _ _ _ (Hlk Y) eq_refl) as (l' & EL).
+    cbn [read_math_loop]. rewrite EL. rewrite Eend. rewrite <- EL.
+    rewrite (U1 Hf (k2 ++ Y)); [|rewrite Eu2; apply L2]. cbn [bind].
+    apply U2; [rewrite Eu1 in Hf; eapply frag_suffix; exact Hf | exact I].
 Qed.
 
 Lemma hdc_nil_inv l : hdc l = None -> l = [].
@@ -426,6 +638,43 @@ Proof.
     rewrite (is_tc_cat _ _ _ Ecat), Hb, H0 in HB. inversion HB. reflexivity.
 Qed.
 
+Lemma opt_stop_F f args nopt m toks Y :
+  LKs toks Y ->
+  ((nopt =? 0)%Z = true \/ after_spacer toks = [] \/
+   exists c l, after_spacer toks = c :: l /\ is_tc TBracketBegin c = false) ->
+  read_arg_optional (S f) args nopt true m Y = Ok ((args, nopt), Y).
+Proof.
+  intros Hlk Hc. cbn [read_arg_optional].
+  destruct (nopt =? 0)%Z eqn:En; [reflexivity|].
+  destruct Hc as [Hc|[Hc|(c & l & Hc & Hb)]]; [discriminate Hc| |].
+  - unfold LKs in Hlk. rewrite Hc in Hlk. symmetry in Hlk. apply hdc_nil_inv in Hlk.
+    unfold after_spacer in Hlk. destruct (read_spacer Y) as [b' s']. cbn [snd] in Hlk. subst s'.
+    reflexivity.
+  - unfold LKs in Hlk. rewrite Hc in Hlk. apply hdc_cons_inv in Hlk.
+    destruct Hlk as (c' & l' & E & Ecat).
+    unfold after_spacer in E. destruct (read_spacer Y) as [b' s']. cbn [snd] in E. subst s'.
+    rewrite (is_tc_cat _ _ _ Ecat), Hb. reflexivity.
+Qed.
+
+Lemma req_stop_F f args nreq m toks Y :
+  LKs toks Y ->
+  ((nreq =? 0)%Z = true \/ after_spacer toks = [] \/
+   exists c l, after_spacer toks = c :: l /\ is_tc TGroupBegin c = false /\ (0 <? nreq)%Z = false) ->
+  read_arg_required (S f) args nreq true m Y = Ok ((args, nreq), Y).
+Proof.
+  intros Hlk Hc. cbn [read_arg_required].
+  destruct (nreq =? 0)%Z eqn:En; [reflexivity|].
+  destruct Y as [|y Y']; [reflexivity|].
+  destruct Hc as [Hc|[Hc|(c & l & Hc & Hb & H0)]]; [discriminate Hc| |].
+  - unfold LKs in Hlk. rewrite Hc in Hlk. symmetry in Hlk. apply hdc_nil_inv in Hlk.
+    unfold after_spacer in Hlk. destruct (read_spacer (y :: Y')) as [b' s']. cbn [snd] in Hlk.
+    subst s'. reflexivity.
+  - unfold LKs in Hlk. rewrite Hc in Hlk. apply hdc_cons_inv in Hlk.
+    destruct Hlk as (c' & l' & E & Ecat).
+    unfold after_spacer in E. destruct (read_spacer (y :: Y')) as [b' s']. cbn [snd] in E. subst s'.
+    rewrite (is_tc_cat _ _ _ Ecat), Hb, H0. reflexivity.
+Qed.
+
 Lemma after_spacer_of toks b src1 : read_spacer toks = (b, src1) -> after_spacer toks = src1.
 Proof. intro H. unfold after_spacer. rewrite H. reflexivity. Qed.
 
@@ -462,11 +711,15 @@ Proof.
     Ok (args, nopt, toks) = Ok (args', n', rest) ->
     exists used new, toks = used ++ rest /\ args' = args ++ new /\ (okargs new = true ->
       exists kept, Kept used kept /\ estr_list new = texts kept /\ ArgP used kept /\
-        det (fun g l => read_arg_optional g args nopt true m l) LKs kept rest (args', n'))).
+        det (fun g l => read_arg_optional g args nopt true m l) LKs kept rest (args', n') /\
+        (frag toks = true ->
+         succ (fun l => read_arg_optional (S f) args nopt true m l) LKs kept rest (args', n')))).
   { intros a' k' r' Hc H'. inversion H'; subst. exists [], [].
     split; [reflexivity|]. split; [rewrite app_nil_r; reflexivity|]. intros _.
     exists []. split; [constructor|]. split; [reflexivity|]. split; [left; auto|].
-    intros g Y r Hlk HB. cbn [app] in HB. eapply opt_stop_B; eassumption. }
+    split.
+    { intros g Y r Hlk HB. cbn [app] in HB. eapply opt_stop_B; eassumption. }
+    intros _ Y Hlk. cbn [app]. eapply opt_stop_F; eassumption. }
   destruct (nopt =? 0)%Z eqn:En; [apply Hstop; [left; reflexivity | exact H]|].
   destruct (read_spacer toks) as [b src1] eqn:Esp.
   pose proof (after_spacer_of _ _ _ Esp) as Has.
@@ -486,20 +739,29 @@ Proof.
   destruct Hsplit as (used & Eused).
   exists used, (gr :: new2). split; [exact Eused|]. split; [rewrite <- app_assoc; reflexivity|].
   intro Hok. apply okargs_cons in Hok. destruct Hok as (_ & Hn1 & Hn2).
-  destruct (Cgr Hn1) as (kg & Kg & Tg & Dg). destruct (C2 Hn2) as (k2 & K2 & T2 & A2 & D2).
+  destruct (Cgr Hn1) as (kg & Kg & Tg & Dg & Ug).
+  destruct (C2 Hn2) as (k2 & K2 & T2 & A2 & D2 & U2).
   destruct (attach_kept toks b c src2 ug src3 u2 rest kg k2 Esp Hop Eug Eu2 Kg K2)
     as (used' & Eused' & KK & AP).
   assert (used' = used) by (rewrite Eused in Eused'; apply app_inv_tail in Eused'; auto). subst used'.
   exists (c :: kg ++ k2). split; [exact KK|]. split.
   { change (estr_list (gr :: new2)) with (estr gr ++ estr_list new2).
     rewrite Tg, T2, texts_cons, texts_app, <- app_assoc. reflexivity. }
-  split; [exact AP|].
-  intros g Y r Hlk HB. destruct g as [|g]; [discriminate HB|].
-  cbn [read_arg_optional app] in HB. rewrite En, (opener_read_spacer c _ Hop), Ec in HB.
-  rewrite <- app_assoc in HB.
-  apply bind_ok in HB. destruct HB as ([g' s'] & HB1 & HB2).
-  apply Dg in HB1; [|exact I]. inversion HB1; subst g' s'.
-  apply D2 in HB2; [exact HB2 | exact Hlk].
+  split; [exact AP|]. split.
+  { intros g Y r Hlk HB. destruct g as [|g]; [discriminate HB|].
+    cbn [read_arg_optional app] in HB. rewrite En, (opener_read_spacer c _ Hop), Ec in HB.
+    rewrite <- app_assoc in HB.
+    apply bind_ok in HB. destruct HB as ([g' s'] & HB1 & HB2).
+    apply Dg in HB1; [|exact I]. inversion HB1; subst g' s'.
+    apply D2 in HB2; [exact HB2 | exact Hlk]. }
+  intros Hf Y Hlk.
+  assert (Hf2 : frag src2 = true).
+  { apply read_spacer_cases in Esp. destruct Esp as [E|(sp & E & _)]; rewrite E in Hf.
+    - eapply frag_tail; exact Hf.
+    - eapply frag_tail, frag_tail; exact Hf. }
+  cbn [read_arg_optional app]. rewrite En, (opener_read_spacer c _ Hop), Ec.
+  rewrite <- app_assoc. rewrite (Ug Hf2 (k2 ++ Y) I). cbn [bind].
+  apply U2; [rewrite Eug in Hf2; eapply frag_suffix; exact Hf2 | exact Hlk].
 Qed.
 
 Lemma fp_req_S f : fp_all f -> fp_req (S f).
@@ -513,11 +775,15 @@ Proof.
     Ok (args, nreq, toks) = Ok (args', n', rest) ->
     exists used new, toks = used ++ rest /\ args' = args ++ new /\ (okargs new = true ->
       exists kept, Kept used kept /\ estr_list new = texts kept /\ ArgP used kept /\
-        det (fun g l => read_arg_required g args nreq true m l) LKs kept rest (args', n'))).
+        det (fun g l => read_arg_required g args nreq true m l) LKs kept rest (args', n') /\
+        (frag toks = true ->
+         succ (fun l => read_arg_required (S f) args nreq true m l) LKs kept rest (args', n')))).
   { intros a' k' r' Hc H'. inversion H'; subst. exists [], [].
     split; [reflexivity|]. split; [rewrite app_nil_r; reflexivity|]. intros _.
     exists []. split; [constructor|]. split; [reflexivity|]. split; [left; auto|].
-    intros g Y r Hlk HB. cbn [app] in HB. eapply req_stop_B; eassumption. }
+    split.
+    { intros g Y r Hlk HB. cbn [app] in HB. eapply req_stop_B; eassumption. }
+    intros _ Y Hlk. cbn [app]. eapply req_stop_F; eassumption. }
   destruct (nreq =? 0)%Z eqn:En; [apply Hstop; [left; reflexivity | exact H]|].
   destruct toks as [|t0 ts0]; [apply Hstop; [right; left; reflexivity | exact H]|].
   destruct (read_spacer (t0 :: ts0)) as [b src1] eqn:Esp.
@@ -538,7 +804,8 @@ Proof.
     split; [rewrite Epre, Eug, Eu2, <- !app_assoc; simpl; rewrite <- app_assoc; reflexivity|].
     split; [rewrite <- app_assoc; reflexivity|].
     intro Hok. apply okargs_cons in Hok. destruct Hok as (_ & Hn1 & Hn2).
-    destruct (Cgr Hn1) as (kg & Kg & Tg & Dg). destruct (C2 Hn2) as (k2 & K2 & T2 & A2 & D2).
+    destruct (Cgr Hn1) as (kg & Kg & Tg & Dg & Ug).
+    destruct (C2 Hn2) as (k2 & K2 & T2 & A2 & D2 & U2).
     destruct (attach_kept (t0 :: ts0) b c src2 ug src3 u2 rest kg k2 Esp Hop Eug Eu2 Kg K2)
       as (used' & Eused' & KK & AP).
     assert (used' = pre ++ c :: ug ++ u2).
@@ -550,13 +817,19 @@ Proof.
     exists (c :: kg ++ k2). split; [exact KK|]. split.
     { change (estr_list (gr :: new2)) with (estr gr ++ estr_list new2).
       rewrite Tg, T2, texts_cons, texts_app, <- app_assoc. reflexivity. }
-    split; [exact AP|].
-    intros g Y r Hlk HB. destruct g as [|g]; [discriminate HB|].
-    cbn [read_arg_required app] in HB. rewrite En, (opener_read_spacer c _ Hop), Ec in HB.
-    rewrite <- app_assoc in HB.
-    apply bind_ok in HB. destruct HB as ([g' s'] & HB1 & HB2).
-    apply Dg in HB1; [|exact I]. inversion HB1; subst g' s'.
-    apply D2 in HB2; [exact HB2 | exact Hlk].
+    split; [exact AP|]. split.
+    { intros g Y r Hlk HB. destruct g as [|g]; [discriminate HB|].
+      cbn [read_arg_required app] in HB. rewrite En, (opener_read_spacer c _ Hop), Ec in HB.
+      rewrite <- app_assoc in HB.
+      apply bind_ok in HB. destruct HB as ([g' s'] & HB1 & HB2).
+      apply Dg in HB1; [|exact I]. inversion HB1; subst g' s'.
+      apply D2 in HB2; [exact HB2 | exact Hlk]. }
+    intros Hf Y Hlk.
+    assert (Hf2 : frag src2 = true).
+    { rewrite Epre in Hf. apply frag_suffix in Hf. eapply frag_tail; exact Hf. }
+    cbn [read_arg_required app]. rewrite En, (opener_read_spacer c _ Hop), Ec.
+    rewrite <- app_assoc. rewrite (Ug Hf2 (k2 ++ Y) I). cbn [bind].
+    apply U2; [rewrite Eug in Hf2; eapply frag_suffix; exact Hf2 | exact Hlk].
   - destruct (0 <? nreq)%Z eqn:E0;
       [|apply Hstop; [right; right; exists c, src2; auto | exact H]].
     (* a bare token taken as argument: excluded by okargs *)
@@ -607,9 +880,10 @@ Proof.
   unfold fp_args. intros nreq nopt m toks args rest Hy H. simpl in H.
   destruct ((nreq =? 0)%Z && (nopt =? 0)%Z) eqn:E00.
   { inversion H; subst. exists []. split; [reflexivity|]. intros _.
-    exists []. split; [constructor|]. split; [reflexivity|].
-    intros g Y r _ HB. destruct g as [|g]; [discriminate HB|].
-    cbn [read_args app] in HB. rewrite E00 in HB. inversion HB. reflexivity. }
+    exists []. split; [constructor|]. split; [reflexivity|]. split.
+    { intros g Y r _ HB. destruct g as [|g]; [discriminate HB|].
+      cbn [read_args app] in HB. rewrite E00 in HB. inversion HB. reflexivity. }
+    intros _ Y _. cbn [read_args app]. rewrite E00. reflexivity. }
   apply bind_ok in H. destruct H as ([[args1 nopt1] src1] & H1 & H).
   apply Co in H1; [|exact Hy]. destruct H1 as (u1 & new1 & Eu1 & -> & C1).
   assert (Hy1 : Hyp src1) by (rewrite Eu1 in Hy; eapply Hyp_suffix; exact Hy).
@@ -628,35 +902,47 @@ Proof.
   assert (S3 : exists u3 new3, src2 = u3 ++ src3 /\ args3 = args2 ++ new3 /\
      (okargs new3 = true -> exists k3, Kept u3 k3 /\ estr_list new3 = texts k3 /\ ArgP u3 k3 /\
         (forall t l, u3 = t :: l -> is_tc TMergedSpacer t = false) /\
-        det F3 LKd k3 src3 (args3, n3))).
+        det F3 LKd k3 src3 (args3, n3) /\
+        (frag src2 = true -> succ (F3 f) LKd k3 src3 (args3, n3)))).
   { destruct src2 as [|t2 ts2].
     { inversion H3; subst. exists [], []. split; [reflexivity|].
       split; [rewrite app_nil_r; reflexivity|]. intros _. exists [].
       split; [constructor|]. split; [reflexivity|]. split; [left; auto|].
       split; [intros t l E; discriminate E|].
-      intros g Y r (_ & Hh) HB. cbn [app] in HB. destruct Y; [|discriminate Hh].
-      unfold F3 in HB. inversion HB. reflexivity. }
+      split.
+      { intros g Y r (_ & Hh) HB. cbn [app] in HB. destruct Y; [|discriminate Hh].
+        unfold F3 in HB. inversion HB. reflexivity. }
+      intros _ Y (_ & Hh). cbn [app]. destruct Y; [|discriminate Hh]. reflexivity. }
     destruct (is_tc TBracketBegin t2) eqn:Et2.
     - apply Co in H3; [|exact Hy2]. destruct H3 as (u3 & new3 & Eu3 & -> & C3).
       exists u3, new3. split; [exact Eu3|]. split; [reflexivity|].
-      intro Hok. destruct (C3 Hok) as (k3 & K3 & T3 & A3 & D3).
+      intro Hok. destruct (C3 Hok) as (k3 & K3 & T3 & A3 & D3 & U3).
       assert (Hns : forall t l, u3 = t :: l -> is_tc TMergedSpacer t = false).
       { intros t l E. rewrite E in Eu3. inversion Eu3; subst t.
         eapply is_tc_excl; [exact Et2 | discriminate]. }
       exists k3. split; [exact K3|]. split; [exact T3|]. split; [exact A3|].
       split; [exact Hns|].
-      intros g Y r (Hl & Hh) HB.
+      split.
+      { intros g Y r (Hl & Hh) HB.
+        pose proof (ArgP_hd _ _ A3 Hns _ _ Hh) as Hhd. rewrite <- Eu3 in Hhd. cbn [hd_error] in Hhd.
+        unfold F3 in HB. destruct (k3 ++ Y) as [|t' l'] eqn:EL; [discriminate Hhd|].
+        inversion Hhd; subst t'. rewrite Et2 in HB. rewrite <- EL in HB.
+        apply D3 in HB; [exact HB | exact Hl]. }
+      intros Hf Y (Hl & Hh).
       pose proof (ArgP_hd _ _ A3 Hns _ _ Hh) as Hhd. rewrite <- Eu3 in Hhd. cbn [hd_error] in Hhd.
-      unfold F3 in HB. destruct (k3 ++ Y) as [|t' l'] eqn:EL; [discriminate Hhd|].
-      inversion Hhd; subst t'. rewrite Et2 in HB. rewrite <- EL in HB.
-      apply D3 in HB; [exact HB | exact Hl].
+      unfold F3. destruct (k3 ++ Y) as [|t' l'] eqn:EL; [discriminate Hhd|].
+      inversion Hhd; subst t'. rewrite Et2. rewrite <- EL.
+      apply U3; [exact Hf | exact Hl].
     - inversion H3; subst. exists [], []. split; [reflexivity|].
       split; [rewrite app_nil_r; reflexivity|]. intros _. exists [].
       split; [constructor|]. split; [reflexivity|]. split; [left; auto|].
       split; [intros t l E; discriminate E|].
-      intros g Y r (_ & Hh) HB. cbn [app] in HB. destruct Y as [|y Y']; [discriminate Hh|].
-      cbn [hd_error] in Hh. inversion Hh; subst y.
-      unfold F3 in HB. rewrite Et2 in HB. inversion HB. reflexivity. }
+      split.
+      { intros g Y r (_ & Hh) HB. cbn [app] in HB. destruct Y as [|y Y']; [discriminate Hh|].
+        cbn [hd_error] in Hh. inversion Hh; subst y.
+        unfold F3 in HB. rewrite Et2 in HB. inversion HB. reflexivity. }
+      intros _ Y (_ & Hh). cbn [app]. destruct Y as [|y Y']; [discriminate Hh|].
+      cbn [hd_error] in Hh. inversion Hh; subst y. unfold F3. rewrite Et2. reflexivity. }
   destruct S3 as (u3 & new3 & Eu3 & -> & C3).
   assert (Hy3 : Hyp src3) by (rewrite Eu3 in Hy2; eapply Hyp_suffix; exact Hy2).
   apply bind_ok in H. destruct H as ([[args4 n4] src4] & H4 & H).
@@ -672,35 +958,47 @@ Proof.
   assert (S4 : exists u4 new4, src3 = u4 ++ rest /\ args = args3 ++ new4 /\
      (okargs new4 = true -> exists k4, Kept u4 k4 /\ estr_list new4 = texts k4 /\ ArgP u4 k4 /\
         (forall t l, u4 = t :: l -> is_tc TMergedSpacer t = false) /\
-        det F4 LKd k4 rest (args, n4))).
+        det F4 LKd k4 rest (args, n4) /\
+        (frag src3 = true -> succ (F4 f) LKd k4 rest (args, n4)))).
   { destruct src3 as [|t3 ts3].
     { inversion H4; subst. exists [], []. split; [reflexivity|].
       split; [rewrite app_nil_r; reflexivity|]. intros _. exists [].
       split; [constructor|]. split; [reflexivity|]. split; [left; auto|].
       split; [intros t l E; discriminate E|].
-      intros g Y r (_ & Hh) HB. cbn [app] in HB. destruct Y; [|discriminate Hh].
-      unfold F4 in HB. inversion HB. reflexivity. }
+      split.
+      { intros g Y r (_ & Hh) HB. cbn [app] in HB. destruct Y; [|discriminate Hh].
+        unfold F4 in HB. inversion HB. reflexivity. }
+      intros _ Y (_ & Hh). cbn [app]. destruct Y; [|discriminate Hh]. reflexivity. }
     destruct (is_tc TGroupBegin t3) eqn:Et3.
     - apply Cr in H4; [|exact Hy3]. destruct H4 as (u4 & new4 & Eu4 & -> & C4).
       exists u4, new4. split; [exact Eu4|]. split; [reflexivity|].
-      intro Hok. destruct (C4 Hok) as (k4 & K4 & T4 & A4 & D4).
+      intro Hok. destruct (C4 Hok) as (k4 & K4 & T4 & A4 & D4 & U4).
       assert (Hns : forall t l, u4 = t :: l -> is_tc TMergedSpacer t = false).
       { intros t l E. rewrite E in Eu4. inversion Eu4; subst t.
         eapply is_tc_excl; [exact Et3 | discriminate]. }
       exists k4. split; [exact K4|]. split; [exact T4|]. split; [exact A4|].
       split; [exact Hns|].
-      intros g Y r (Hl & Hh) HB.
+      split.
+      { intros g Y r (Hl & Hh) HB.
+        pose proof (ArgP_hd _ _ A4 Hns _ _ Hh) as Hhd. rewrite <- Eu4 in Hhd. cbn [hd_error] in Hhd.
+        unfold F4 in HB. destruct (k4 ++ Y) as [|t' l'] eqn:EL; [discriminate Hhd|].
+        inversion Hhd; subst t'. rewrite Et3 in HB. rewrite <- EL in HB.
+        apply D4 in HB; [exact HB | exact Hl]. }
+      intros Hf Y (Hl & Hh).
       pose proof (ArgP_hd _ _ A4 Hns _ _ Hh) as Hhd. rewrite <- Eu4 in Hhd. cbn [hd_error] in Hhd.
-      unfold F4 in HB. destruct (k4 ++ Y) as [|t' l'] eqn:EL; [discriminate Hhd|].
-      inversion Hhd; subst t'. rewrite Et3 in HB. rewrite <- EL in HB.
-      apply D4 in HB; [exact HB | exact Hl].
+      unfold F4. destruct (k4 ++ Y) as [|t' l'] eqn:EL; [discriminate Hhd|].
+      inversion Hhd; subst t'. rewrite Et3. rewrite <- EL.
+      apply U4; [exact Hf | exact Hl].
     - inversion H4; subst. exists [], []. split; [reflexivity|].
       split; [rewrite app_nil_r; reflexivity|]. intros _. exists [].
       split; [constructor|]. split; [reflexivity|]. split; [left; auto|].
       split; [intros t l E; discriminate E|].
-      intros g Y r (_ & Hh) HB. cbn [app] in HB. destruct Y as [|y Y']; [discriminate Hh|].
-      cbn [hd_error] in Hh. inversion Hh; subst y.
-      unfold F4 in HB. rewrite Et3 in HB. inversion HB. reflexivity. }
+      split.
+      { intros g Y r (_ & Hh) HB. cbn [app] in HB. destruct Y as [|y Y']; [discriminate Hh|].
+        cbn [hd_error] in Hh. inversion Hh; subst y.
+        unfold F4 in HB. rewrite Et3 in HB. inversion HB. reflexivity. }
+      intros _ Y (_ & Hh). cbn [app]. destruct Y as [|y Y']; [discriminate Hh|].
+      cbn [hd_error] in Hh. inversion Hh; subst y. unfold F4. rewrite Et3. reflexivity. }
   destruct S4 as (u4 & new4 & Eu4 & -> & C4).
   exists (u1 ++ u2 ++ u3 ++ u4).
   split; [rewrite Eu1, Eu2, Eu3, Eu4, <- !app_assoc; reflexivity|].
@@ -708,13 +1006,38 @@ Proof.
   apply okargs_app in Hok. destruct Hok as [Hok H4ok].
   apply okargs_app in Hok. destruct Hok as [Hok H3ok].
   apply okargs_app in Hok. destruct Hok as [H1ok H2ok]. cbn [app] in H1ok.
-  destruct (C1 H1ok) as (k1 & K1 & T1 & A1 & D1). destruct (C2 H2ok) as (k2 & K2 & T2 & A2 & D2).
-  destruct (C3 H3ok) as (k3 & K3 & T3 & A3 & N3 & D3).
-  destruct (C4 H4ok) as (k4 & K4 & T4 & A4 & N4 & D4).
+  destruct (C1 H1ok) as (k1 & K1 & T1 & A1 & D1 & U1).
+  destruct (C2 H2ok) as (k2 & K2 & T2 & A2 & D2 & U2).
+  destruct (C3 H3ok) as (k3 & K3 & T3 & A3 & N3 & D3 & U3).
+  destruct (C4 H4ok) as (k4 & K4 & T4 & A4 & N4 & D4 & U4).
   exists (k1 ++ k2 ++ k3 ++ k4).
   split; [repeat apply Kept_app; assumption|]. split.
   { unfold args3, args2. rewrite !estr_list_app, !texts_app, T1, T2, T3, T4, <- !app_assoc.
     reflexivity. }
+  split.
+  2:{ intros Hf Y Hlk. cbn [read_args]. rewrite E00. rewrite <- !app_assoc.
+      pose proof (LK_LKd _ _ Hlk) as (Hls & Hlh).
+      pose proof (ArgP_LKsP _ _ A4 _ _ Hls) as L4.
+      pose proof (ArgP_LKsP _ _ A3 _ _ L4) as L3.
+      pose proof (ArgP_LKsP _ _ A2 _ _ L3) as L2.
+      assert (Hf1 : frag src1 = true) by (rewrite Eu1 in Hf; eapply frag_suffix; exact Hf).
+      assert (Hf2 : frag src2 = true) by (rewrite Eu2 in Hf1; eapply frag_suffix; exact Hf1).
+      assert (Hf3 : frag src3 = true) by (rewrite Eu3 in Hf2; eapply frag_suffix; exact Hf2).
+      rewrite (U1 Hf (k2 ++ k3 ++ k4 ++ Y)); [|rewrite Eu2, Eu3, Eu4; exact L2]. cbn [bind].
+      rewrite (U2 Hf1 (k3 ++ k4 ++ Y)); [|rewrite Eu3, Eu4; exact L3]. cbn [bind].
+      change (bind (F3 f (k3 ++ k4 ++ Y))
+                (fun '(args3, _, src3) =>
+                   bind match src3 with
+                        | t :: _ => if is_tc TGroupBegin t
+                                    then read_arg_required f args3 nreq1 true m src3
+                                    else Ok (args3, nreq1, src3)
+                        | [] => Ok (args3, nreq1, src3)
+                        end (fun '(args4, _, src4) => Ok (args4, src4))) = Ok (args3 ++ new4, Y)).
+      rewrite (U3 Hf2 (k4 ++ Y));
+        [|split; [rewrite Eu4; exact L4 | rewrite Eu4; apply (ArgP_hd _ _ A4 N4); exact Hlh]].
+      cbn [bind]. change (bind (F4 f (k4 ++ Y)) (fun '(args4, _, src4) => Ok (args4, src4))
+                          = Ok (args3 ++ new4, Y)).
+      rewrite (U4 Hf3 Y); [|split; assumption]. reflexivity. }
   intros g Y r Hlk HB. destruct g as [|g]; [discriminate HB|].
   cbn [read_args] in HB. rewrite E00 in HB. rewrite <- !app_assoc in HB.
   pose proof (LK_LKd _ _ Hlk) as (Hls & Hlh).
@@ -747,15 +1070,19 @@ Proof.
   apply bind_ok in H. destruct H as ([args1 src1] & Ha & H). inversion H; subst.
   apply Ca in Ha; [|eapply Hyp_tail; exact Hy]. destruct Ha as (used & Eu & C).
   exists nt, used. split; [rewrite Eu; reflexivity|]. split; [reflexivity|].
-  intro Hok. destruct (C Hok) as (kept & K & T & D).
-  exists kept. split; [exact K|]. split; [exact T|].
-  intros g Y r Hlk HB. destruct g as [|g]; [discriminate HB|].
-  cbn [read_command app] in HB. change (skipn 0 (nt :: kept ++ Y)) with (nt :: kept ++ Y) in HB.
-  replace (length (nt :: kept ++ Y) <? 0)%nat with false in HB
-    by (symmetry; apply Nat.ltb_ge; lia).
-  cbv beta iota in HB. rewrite Esig in HB.
-  apply bind_ok in HB. destruct HB as ([a' s'] & HB1 & HB).
-  apply D in HB1; [|exact Hlk]. inversion HB1; subst a' s'. inversion HB. reflexivity.
+  intro Hok. destruct (C Hok) as (kept & K & T & D & U).
+  exists kept. split; [exact K|]. split; [exact T|]. split.
+  { intros g Y r Hlk HB. destruct g as [|g]; [discriminate HB|].
+    cbn [read_command app] in HB. change (skipn 0 (nt :: kept ++ Y)) with (nt :: kept ++ Y) in HB.
+    replace (length (nt :: kept ++ Y) <? 0)%nat with false in HB
+      by (symmetry; apply Nat.ltb_ge; lia).
+    cbv beta iota in HB. rewrite Esig in HB.
+    apply bind_ok in HB. destruct HB as ([a' s'] & HB1 & HB).
+    apply D in HB1; [|exact Hlk]. inversion HB1; subst a' s'. inversion HB. reflexivity. }
+  intros Hf Y Hlk.
+  cbn [read_command app]. change (skipn 0 (nt :: kept ++ Y)) with (nt :: kept ++ Y).
+  replace (length (nt :: kept ++ Y) <? 0)%nat with false by (symmetry; apply Nat.ltb_ge; lia).
+  cbv beta iota. rewrite Esig. rewrite (U (frag_tail _ _ Hf) Y Hlk). reflexivity.
 Qed.
 
 Definition name_of (l : list token) : str := match l with nt :: _ => ttext nt | [] => [] end.
@@ -870,7 +1197,8 @@ Lemma finish_end_kept f m t l cname a0 cargs crest name b c src3 g rest :
     (t :: l = [t; nm; c; n; cl] ++ rest \/
      exists sp, is_tc TMergedSpacer sp = true /\ t :: l = [t; nm; sp; c; n; cl] ++ rest) /\
     env_end name = texts [t; nm; c; n; cl] /\ ttext nm = s_end /\
-    is_tc TGroupBegin c = true /\ is_tc TText n = true /\ is_tc TGroupEnd cl = true.
+    is_tc TGroupBegin c = true /\ is_tc TText n = true /\ is_tc TGroupEnd cl = true /\
+    simple_name_group (c :: n :: cl :: rest) = true.
 Proof.
   intros Hy Ht Hpeek Hend Hname Esp Harg.
   pose proof (end_peek_opens _ _ _ _ _ _ _ _ _ Hpeek Hend) as (c0 & Hc0 & Hk0).
@@ -924,7 +1252,144 @@ Proof.
   split.
   { rewrite env_end_eq. unfold texts. cbn [map concat]. rewrite Tt, Tnm, Tc, Tcl, app_nil_r.
     reflexivity. }
-  auto.
+  repeat (split; [assumption|]). exact Hnok.
+Qed.
+
+(* ----------------------------------- the peek at `\end{name}`, forwards *)
+
+Lemma text_not_closer n : is_tc TText n = true ->
+  is_group_end GBrace n = false /\ math_kind_of_begin (tcat n) = None /\
+  is_tc TEscape n = false /\ is_tc TGroupBegin n = false.
+Proof.
+  intro H. apply is_tc_eq in H. unfold is_group_end, is_tc. rewrite brace_end_is, H.
+  repeat split; reflexivity.
+Qed.
+
+Lemma simple_group_fwd f c m n cl Y :
+  group_kind_of_begin (tcat c) = Some GBrace ->
+  is_tc TText n = true -> is_tc TGroupEnd cl = true ->
+  read_arg (S (S (S f))) c true m (n :: cl :: Y) = Ok (EGroup GBrace [EText n] (tpos c), Y).
+Proof.
+  intros Hk Hn Hcl. destruct (text_not_closer n Hn) as (N1 & N2 & N3 & N4).
+  assert (Hce : is_group_end GBrace cl = true).
+  { unfold is_group_end. rewrite brace_end_is. exact Hcl. }
+  cbn [read_arg]. rewrite Hk. cbn [read_arg_loop]. rewrite N1. cbn [read_expr].
+  rewrite N2, N3, N4. cbn [bind app]. rewrite Hce. reflexivity.
+Qed.
+
+Lemma noarg_after Y : noarg Y = true ->
+  after_spacer Y = [] \/
+  exists c l, after_spacer Y = c :: l /\ is_tc TGroupBegin c = false /\ is_tc TBracketBegin c = false.
+Proof.
+  unfold noarg, hdc. destruct (after_spacer Y) as [|c l]; [auto|]. cbn [hd_error option_map].
+  intro H. right. exists c, l. split; [reflexivity|]. unfold is_tc.
+  destruct (tcat c); try discriminate H; split; reflexivity.
+Qed.
+
+Lemma noarg_hd y Y' : noarg (y :: Y') = true ->
+  is_tc TBracketBegin y = false /\ is_tc TGroupBegin y = false.
+Proof.
+  intro H. destruct (is_tc TMergedSpacer y) eqn:Es.
+  - split; eapply is_tc_excl; try exact Es; discriminate.
+  - apply noarg_after in H. rewrite after_spacer_cons, Es in H.
+    destruct H as [H|(c & l & H & H1 & H2)]; [discriminate H|]. inversion H; subst. auto.
+Qed.
+
+Lemma LKs_refl a : LKs a a.
+Proof. reflexivity. Qed.
+
+Lemma end_plain nm : ttext nm = s_end ->
+  signature_of (ttext nm) = ((-1)%Z, (-1)%Z) /\ mem_str (ttext nm) Tables.special_commands = false.
+Proof. intros ->. split; vm_compute; reflexivity. Qed.
+
+Lemma req_take f args nreq m c l g s :
+  (nreq =? 0)%Z = false -> is_tc TGroupBegin c = true ->
+  read_arg f c true m l = Ok (g, s) ->
+  read_arg_required (S f) args nreq true m (c :: l) =
+  read_arg_required f (args ++ [g]) (nreq - 1) true m s.
+Proof.
+  intros Hn Hc H. cbn [read_arg_required]. rewrite Hn.
+  assert (Hop : is_opener c = true) by (unfold is_opener; rewrite Hc; reflexivity).
+  rewrite (opener_read_spacer c _ Hop), Hc, H. reflexivity.
+Qed.
+
+Lemma peek_end_fwd f m t nm c n cl Y :
+  ttext nm = s_end -> is_tc TGroupBegin c = true -> is_tc TText n = true ->
+  is_tc TGroupEnd cl = true -> noarg Y = true ->
+  read_command (6 + f) (-1) (-1) 1 true m (t :: nm :: c :: n :: cl :: Y) =
+  Ok ((ttext nm, [EGroup GBrace [EText n] (tpos c)]), Y).
+Proof.
+  intros Tnm Hc Hn Hcl HY. destruct (end_plain nm Tnm) as [Hsig Hspec].
+  assert (Hkc : group_kind_of_begin (tcat c) = Some GBrace).
+  { apply is_tc_eq in Hc. rewrite Hc. exact gk_brace. }
+  assert (Hop : is_opener c = true) by (unfold is_opener; rewrite Hc; reflexivity).
+  assert (Hcb : is_tc TBracketBegin c = false) by (eapply is_tc_excl; [exact Hc | discriminate]).
+  rewrite peek_shift. change (6 + f)%nat with (S (S (S (S (S (S f)))))).
+  cbn [read_command]. change (skipn 0 (nm :: c :: n :: cl :: Y)) with (nm :: c :: n :: cl :: Y).
+  replace (length (nm :: c :: n :: cl :: Y) <? 0)%nat with false by reflexivity.
+  cbv beta iota. rewrite Hspec.
+  replace ((-1 <? 0)%Z && (-1 <? 0)%Z) with true by reflexivity. rewrite Hsig.
+  cbn [read_args]. replace ((-1 =? 0)%Z && (-1 =? 0)%Z) with false by reflexivity.
+  (* optional pass *)
+  rewrite (opt_stop_F _ [] (-1) m (c :: n :: cl :: Y) (c :: n :: cl :: Y) (LKs_refl _)).
+  2:{ right. right. exists c, (n :: cl :: Y). rewrite after_spacer_cons.
+      rewrite (opener_not_spacer c Hop). auto. }
+  cbn [bind].
+  (* required pass *)
+  rewrite (req_take _ [] (-1) m c (n :: cl :: Y) _ _ eq_refl Hc
+             (simple_group_fwd f c m n cl Y Hkc Hn Hcl)).
+  cbn [app]. replace (-1 - 1)%Z with (-2)%Z by reflexivity.
+  rewrite (req_stop_F _ [EGroup GBrace [EText n] (tpos c)] (-2) m Y Y (LKs_refl Y)).
+  2:{ right. destruct (noarg_after Y HY) as [E|(c2 & l2 & E & G1 & _)]; [left; exact E|].
+      right. exists c2, l2. auto. }
+  cbn [bind].
+  destruct Y as [|y Y']; [reflexivity|].
+  destruct (noarg_hd y Y' HY) as [B1 B2]. rewrite B1. cbn [bind]. rewrite B2. reflexivity.
+Qed.
+
+(* the first run's peek went through the same six levels *)
+Lemma peek_fuel f m t nm pre c n cl rest r :
+  (pre = [] \/ exists sp, is_tc TMergedSpacer sp = true /\ pre = [sp]) ->
+  ttext nm = s_end -> is_tc TGroupBegin c = true -> is_tc TText n = true ->
+  read_command f (-1) (-1) 1 true m (t :: nm :: pre ++ c :: n :: cl :: rest) = Ok r ->
+  exists f', f = (6 + f')%nat.
+Proof.
+  intros Hpre Tnm Hc Hn H. destruct (end_plain nm Tnm) as [Hsig Hspec].
+  assert (Hkc : group_kind_of_begin (tcat c) = Some GBrace).
+  { apply is_tc_eq in Hc. rewrite Hc. exact gk_brace. }
+  assert (Hop : is_opener c = true) by (unfold is_opener; rewrite Hc; reflexivity).
+  assert (Hcb : is_tc TBracketBegin c = false) by (eapply is_tc_excl; [exact Hc | discriminate]).
+  destruct (text_not_closer n Hn) as (N1 & N2 & N3 & N4).
+  set (X := pre ++ c :: n :: cl :: rest) in *.
+  assert (Esp : exists b, read_spacer X = (b, c :: n :: cl :: rest)).
+  { unfold X. destruct Hpre as [->|(sp & Hsp & ->)]; cbn [app].
+    - exists false. apply opener_read_spacer. exact Hop.
+    - exists true. unfold read_spacer. rewrite Hsp. reflexivity. }
+  destruct Esp as (b & Esp).
+  assert (HX : exists x0 xs, X = x0 :: xs).
+  { unfold X. destruct Hpre as [->|(sp & _ & ->)]; cbn [app]; eauto. }
+  destruct HX as (x0 & xs & HX).
+  rewrite peek_shift in H.
+  destruct f as [|f1]; [discriminate H|]. cbn [read_command] in H.
+  change (skipn 0 (nm :: X)) with (nm :: X) in H.
+  replace (length (nm :: X) <? 0)%nat with false in H by reflexivity.
+  cbv beta iota in H. rewrite Hspec in H.
+  replace ((-1 <? 0)%Z && (-1 <? 0)%Z) with true in H by reflexivity. rewrite Hsig in H.
+  apply bind_ok in H. destruct H as ([a s] & Ha & _).
+  destruct f1 as [|f2]; [discriminate Ha|]. cbn [read_args] in Ha.
+  replace ((-1 =? 0)%Z && (-1 =? 0)%Z) with false in Ha by reflexivity.
+  apply bind_ok in Ha. destruct Ha as ([[a1 n1] s1] & Ho & Ha).
+  destruct f2 as [|f3]; [discriminate Ho|]. cbn [read_arg_optional] in Ho.
+  replace (-1 =? 0)%Z with false in Ho by reflexivity. rewrite Esp, Hcb in Ho.
+  inversion Ho; subst a1 n1 s1. clear Ho.
+  apply bind_ok in Ha. destruct Ha as ([[a2 n2] s2] & Hr & _).
+  cbn [read_arg_required] in Hr. replace (-1 =? 0)%Z with false in Hr by reflexivity.
+  rewrite HX in Hr. rewrite <- HX in Hr. rewrite Esp, Hc in Hr.
+  apply bind_ok in Hr. destruct Hr as ([g s3] & Hg & _).
+  destruct f3 as [|f4]; [discriminate Hg|]. cbn [read_arg] in Hg. rewrite Hkc in Hg.
+  destruct f4 as [|f5]; [discriminate Hg|]. cbn [read_arg_loop] in Hg. rewrite N1 in Hg.
+  apply bind_ok in Hg. destruct Hg as ([e s4] & He & _).
+  destruct f5 as [|f6]; [discriminate He|]. exists f6. reflexivity.
 Qed.
 
 Lemma fp_env_S f : fp_all f -> fp_env (S f).
@@ -992,7 +1457,7 @@ Proof.
   destruct src2 as [|c src3]; [discriminate|].
   apply bind_ok in H. destruct H as ([gr grest] & Harg' & H). inversion H; subst e grest. clear H.
   destruct (finish_end_kept _ _ _ _ _ _ _ _ _ _ _ _ _ _ Hy Et Hpeek Eend Ename Esp Harg')
-    as (nm & n & cl & Hused & Ttx & Tnm & Hc & Hn & Hcl).
+    as (nm & n & cl & Hused & Ttx & Tnm & Hc & Hn & Hcl & Hsimple).
   assert (Hsplit : exists used, t :: l = used ++ rest /\ Kept used [t; nm; c; n; cl] /\
                      LKU used [t; nm; c; n; cl]).
   { pose proof (is_tc_excl _ TMergedSpacer _ Et ltac:(discriminate)) as Hts.
@@ -1801,3 +2266,366 @@ Proof.
   - inversion H2. apply ze_eq_sim. assumption.
   - inversion H2. reflexivity.
 Qed.
+
+(* ====================================================================== *)
+(* Stage 3: assembly with TOKINV                                           *)
+(* ====================================================================== *)
+
+Lemma repos_pos_sim toks : forall p, Forall2 tok_pos_sim (TokInverse.repos p toks) toks.
+Proof.
+  induction toks as [|t r IH]; intro p; cbn [TokInverse.repos]; constructor;
+    [split; reflexivity | apply IH].
+Qed.
+
+(* the token before a deleted spacer (TokInverse.last_tok_ok): not a Comment
+   (in the output it would swallow the opening brace), and not the letter part
+   of a sizing command: "\left {" / "\big [" would be re-tokenised as the single
+   sizing token "left{" / "big[" - the property's own side condition "a sizing
+   prefix is immediately followed by its delimiter" *)
+Definition prev_ok (prev : option token) : bool :=
+  match prev with
+  | None => true
+  | Some l => negb (is_tc TComment l) &&
+              negb (is_tc TCommandName l && mem_str (ttext l) TokInverse.sizing_prefixes)
+  end.
+
+(* every MergedSpacer that stands directly before `{` or `[` has an admissible
+   predecessor *)
+Fixpoint spacer_ctx_ok (prev : option token) (toks : list token) : bool :=
+  match toks with
+  | sp :: ((o :: _) as r) =>
+    (if is_tc TMergedSpacer sp && is_opener o then prev_ok prev else true) &&
+    spacer_ctx_ok (Some sp) r
+  | _ => true
+  end.
+
+Fixpoint lastopt (a : list token) : option token :=
+  match a with
+  | [] => None
+  | [l] => Some l
+  | _ :: a' => lastopt a'
+  end.
+
+Lemma lastopt_snoc a t : lastopt (a ++ [t]) = Some t.
+Proof.
+  induction a as [|x a IH]; [reflexivity|]. cbn [app lastopt].
+  destruct (a ++ [t]) eqn:E; [destruct a; discriminate E|]. exact IH.
+Qed.
+
+Lemma lastopt_In a l : lastopt a = Some l -> In l a.
+Proof.
+  induction a as [|x a IH]; [discriminate|]. cbn [lastopt].
+  destruct a as [|y a']; [intro H; inversion H; left; reflexivity|].
+  intro H. right. apply IH. exact H.
+Qed.
+
+Lemma last_ok_lastopt a rest :
+  TokInverse.last_ok a rest =
+  match lastopt a with None => true | Some l => TokInverse.last_tok_ok l rest end.
+Proof.
+  induction a as [|x a IH]; [reflexivity|]. cbn [TokInverse.last_ok lastopt].
+  destruct a as [|y a']; [reflexivity | exact IH].
+Qed.
+
+Lemma ctx_prev_irrel p q t ts :
+  is_tc TMergedSpacer t = false -> spacer_ctx_ok p (t :: ts) = spacer_ctx_ok q (t :: ts).
+Proof. intro H. destruct ts as [|o r]; [reflexivity|]. cbn [spacer_ctx_ok]. rewrite H. reflexivity. Qed.
+
+Lemma ctx_tail p t ts : spacer_ctx_ok p (t :: ts) = true -> spacer_ctx_ok (Some t) ts = true.
+Proof.
+  destruct ts as [|o r]; [reflexivity|]. cbn [spacer_ctx_ok]. intro H.
+  apply andb_true_iff in H. tauto.
+Qed.
+
+Lemma opener_open_tok t : opener t -> TokInverse.open_tok t.
+Proof. intros [H|H]; [left | right]; apply is_tc_eq; exact H. Qed.
+
+Lemma prev_ok_last l o b :
+  TokInverse.shape l = true -> TokInverse.shape o = true -> TokInverse.open_tok o ->
+  prev_ok (Some l) = true -> TokInverse.last_tok_ok l (TokInverse.texts (o :: b)) = true.
+Proof.
+  intros Sl So Ho Hp. unfold prev_ok in Hp. apply andb_true_iff in Hp. destruct Hp as [Hc Hs].
+  apply negb_true_iff in Hc. apply negb_true_iff in Hs.
+  destruct (tc_beq (tcat l) TCommandName) eqn:Ek.
+  - apply tc_eqb_eq in Ek. apply TokInverse.cmd_not_sizing_ok; [exact Sl | exact Ek | |].
+    + destruct (TokInverse.open_tok_char o So Ho) as (d & Ed & Hd).
+      rewrite TokInverse.texts_cons, Ed. cbn [app hd_error TokInverse.nc_not].
+      destruct (TokInverse.open_char_facts d Hd) as (_ & _ & _ & _ & _ & Hls). rewrite Hls.
+      reflexivity.
+    + unfold is_tc in Hs. rewrite Ek in Hs. cbn [tc_beq andb] in Hs. exact Hs.
+  - unfold TokInverse.last_tok_ok. unfold is_tc in Hc.
+    destruct (tcat l); try reflexivity; discriminate.
+Qed.
+
+(* Kept (ConsBridge) and DropSp (TokInverse) are the same idea: the bridge *)
+Lemma Kept_DropSp toks kept : Kept toks kept ->
+  forall pre, TokInverse.shaped (pre ++ toks) -> spacer_ctx_ok (lastopt pre) toks = true ->
+  TokInverse.DropSp (pre ++ toks) (pre ++ kept).
+Proof.
+  induction 1 as [|t ts ks K IH|sp t ts ks Hsp Hop K IH]; intros pre Hsh Hctx.
+  - apply TokInverse.DS_done.
+  - specialize (IH (pre ++ [t])). rewrite <- !app_assoc in IH. apply IH; [exact Hsh|].
+    rewrite lastopt_snoc. eapply ctx_tail. exact Hctx.
+  - assert (Hts : is_tc TMergedSpacer t = false).
+    { destruct Hop as [H|H]; eapply is_tc_excl; try exact H; discriminate. }
+    assert (Hsh' : TokInverse.shaped (pre ++ t :: ts)).
+    { unfold TokInverse.shaped in *. apply Forall_app in Hsh. destruct Hsh as [H1 H2].
+      apply Forall_app. split; [exact H1|]. inversion H2; assumption. }
+    apply TokInverse.DS_step.
+    + apply is_tc_eq. exact Hsp.
+    + apply opener_open_tok. exact Hop.
+    + rewrite last_ok_lastopt. destruct (lastopt pre) as [l|] eqn:El; [|reflexivity].
+      cbn [spacer_ctx_ok] in Hctx. apply andb_true_iff in Hctx. destruct Hctx as [Hc _].
+      assert (Hio : is_opener t = true).
+      { unfold is_opener. destruct Hop as [H|H]; rewrite H; [reflexivity | apply orb_true_r]. }
+      rewrite Hsp, Hio in Hc. cbn [andb] in Hc.
+      unfold TokInverse.shaped in Hsh. rewrite Forall_forall in Hsh.
+      apply prev_ok_last; [| | apply opener_open_tok; exact Hop | exact Hc].
+      * apply Hsh. apply in_or_app. left. apply lastopt_In. exact El.
+      * apply Hsh. apply in_or_app. right. right. left. reflexivity.
+    + apply IH; [exact Hsh'|].
+      apply ctx_tail in Hctx. rewrite (ctx_prev_irrel _ (Some sp) t ts Hts). exact Hctx.
+Qed.
+
+Definition drop_ctx_ok (toks : list token) : bool := spacer_ctx_ok None toks.
+
+Lemma diag_cases {A} (r : res A) : diag r ->
+  match r with
+  | Ok _ => True
+  | Err e => e = EOFError \/ e = TypeError \/ e = AssertionError
+  end.
+Proof. destruct r as [a|e]; [trivial|]. destruct e; simpl; intro H; try contradiction; auto. Qed.
+
+(* the tokens of the serialised text are the kept tokens, re-positioned *)
+Theorem C16_retokenize (s : str) user t :
+  parse s true user = Ok t ->
+  TokInverse.clean s = true -> TokInverse.start_quirk s = false ->
+  TokInverse.start_quirk (estr t) = false ->
+  hypb (all_skip user) (fst (tokens_of_string s)) = true -> nobare t = true ->
+  drop_ctx_ok (fst (tokens_of_string s)) = true ->
+  exists kept, Kept (fst (tokens_of_string s)) kept /\ estr t = texts kept /\
+    tokens_of_string (estr t) = (TokInverse.repos 0 kept, TEnd) /\
+    (forall t', parse_tokens kept true user = Ok t' -> t' = t).
+Proof.
+  intros H Hcl Hq Hq' Hb Hn Hctx.
+  apply parse_unfold in H. destruct H as (toks & Etok & Hp). rewrite Etok in *. cbn [fst] in *.
+  pose proof (Hyp_of_tokenizer s toks TEnd _ Etok Hb) as Hy.
+  destruct (parse_tokens_drop_run toks user t Hy Hp Hn) as (kept & K & T & D).
+  destruct (TokInverse.tokens_shaped s Hcl Hq) as (toks0 & E0 & _ & Hsh & Hfo & Hfirst & _).
+  rewrite Etok in E0. inversion E0; subst toks0.
+  pose proof (Kept_DropSp toks kept K [] Hsh Hctx) as DS. cbn [app] in DS.
+  assert (Hq2 : TokInverse.start_quirk (TokInverse.texts kept) = false).
+  { change (TokInverse.texts kept) with (texts kept). rewrite <- T. exact Hq'. }
+  destruct (TokInverse.drop_spacers_retokenize toks kept DS Hsh Hfo Hfirst Hq2)
+    as (_ & _ & _ & Etk).
+  exists kept. split; [exact K|]. split; [exact T|]. split; [|exact D].
+  rewrite T. exact Etk.
+Qed.
+
+(* C16, general case, up to the success of the second parse: re-parsing the
+   serialised text either raises one of the three diagnostic errors, or it
+   yields the same tree up to positions, which serialises to the same text *)
+Theorem C16_reparse_outcome (s : str) user t :
+  parse s true user = Ok t ->
+  TokInverse.clean s = true -> TokInverse.start_quirk s = false ->
+  TokInverse.start_quirk (estr t) = false ->
+  hypb (all_skip user) (fst (tokens_of_string s)) = true -> nobare t = true ->
+  drop_ctx_ok (fst (tokens_of_string s)) = true ->
+  match parse (estr t) true user with
+  | Ok t' => expr_pos_sim t t' /\ estr t' = estr t
+  | Err e => e = EOFError \/ e = TypeError \/ e = AssertionError
+  end.
+Proof.
+  intros H Hcl Hq Hq' Hb Hn Hctx.
+  destruct (C16_retokenize s user t H Hcl Hq Hq' Hb Hn Hctx) as (kept & K & T & Etk & D).
+  unfold parse. rewrite Etk.
+  pose proof (parse_tokens_pos_sim _ _ true user (repos_pos_sim kept 0)) as S.
+  pose proof (parse_tokens_total (TokInverse.repos 0 kept) true user) as Tot.
+  apply diag_cases in Tot.
+  destruct (parse_tokens (TokInverse.repos 0 kept) true user) as [t'|e]; [|exact Tot].
+  destruct (parse_tokens kept true user) as [t''|e'] eqn:E2; [|contradiction].
+  specialize (D t'' eq_refl). subst t''.
+  assert (S' : expr_pos_sim t t').
+  { apply ze_eq_sim. symmetry. apply sim_ze_eq. exact S. }
+  split; [exact S' | symmetry; apply expr_pos_sim_estr; exact S'].
+Qed.
+
+Theorem C16_fixed_point_partial (s : str) user t t' :
+  parse s true user = Ok t ->
+  TokInverse.clean s = true -> TokInverse.start_quirk s = false ->
+  TokInverse.start_quirk (estr t) = false ->
+  hypb (all_skip user) (fst (tokens_of_string s)) = true -> nobare t = true ->
+  drop_ctx_ok (fst (tokens_of_string s)) = true ->
+  parse (estr t) true user = Ok t' ->
+  expr_pos_sim t t' /\ estr t' = estr t.
+Proof.
+  intros H Hcl Hq Hq' Hb Hn Hctx H'.
+  pose proof (C16_reparse_outcome s user t H Hcl Hq Hq' Hb Hn Hctx) as O.
+  rewrite H' in O. exact O.
+Qed.
+
+(* ====================================================================== *)
+(* non-vacuity and necessity                                               *)
+(* ====================================================================== *)
+(* Every document below was first run through the real library
+   (harness/impl.py, PYTHONHASHSEED=0); the outputs are quoted. *)
+
+Lemma not_sim t t' : ze t <> ze t' -> ~ expr_pos_sim t t'.
+Proof. intros H S. apply H. apply sim_ze_eq. exact S. Qed.
+
+(* exA = '\a [x] {y}z'   str(parse(exA)) == '\a[x]{y}z' *)
+Definition exA : str := [92; 97; 32; 91; 120; 93; 32; 123; 121; 125; 122]%N.
+Definition treeA : expr := match parse exA true [] with Ok t => t | Err _ => ERoot [] end.
+Definition treeA' : expr :=
+  match parse (estr treeA) true [] with Ok t => t | Err _ => ERoot [] end.
+
+Example exA_parses : parse exA true [] = Ok treeA.
+Proof. vm_compute. reflexivity. Qed.
+Example exA_output : estr treeA = [92; 97; 91; 120; 93; 123; 121; 125; 122]%N.
+Proof. vm_compute. reflexivity. Qed.
+Example exA_clean : TokInverse.clean exA = true.
+Proof. vm_compute. reflexivity. Qed.
+Example exA_quirk : TokInverse.start_quirk exA = false.
+Proof. vm_compute. reflexivity. Qed.
+Example exA_quirk' : TokInverse.start_quirk (estr treeA) = false.
+Proof. vm_compute. reflexivity. Qed.
+Example exA_hyp : hypb (all_skip []) (fst (tokens_of_string exA)) = true.
+Proof. vm_compute. reflexivity. Qed.
+Example exA_nobare : nobare treeA = true.
+Proof. vm_compute. reflexivity. Qed.
+Example exA_ctx : drop_ctx_ok (fst (tokens_of_string exA)) = true.
+Proof. vm_compute. reflexivity. Qed.
+Example exA_reparses : parse (estr treeA) true [] = Ok treeA'.
+Proof. vm_compute. reflexivity. Qed.
+(* by the theorem, not by recomputation *)
+Example exA_fixed_point : expr_pos_sim treeA treeA' /\ estr treeA' = estr treeA.
+Proof.
+  exact (C16_fixed_point_partial exA [] treeA treeA' exA_parses exA_clean exA_quirk exA_quirk'
+           exA_hyp exA_nobare exA_ctx exA_reparses).
+Qed.
+(* the two trees are not equal: positions moved *)
+Example exA_positions_moved : treeA <> treeA'.
+Proof. vm_compute. discriminate. Qed.
+
+(* exB (200 characters) =
+     '\section {Intro} text $x^2$ and \[ a+b \]\n'
+     '\textbf\n{bold} \cite [p. 3] {key}\n'
+     '\begin{itemize}\n\item one \emph {two}\n\item[b] three\n\end{itemize}\n'
+     '\begin {center} c \end {center}\n'
+     '\frac {a}\n{b} end % done\n'
+   str(parse(exB)) drops nine argument spacers (two of them line breaks) and
+   str(parse(str(parse(exB)))) == str(parse(exB)). *)
+Definition exB : str :=
+  [92; 115; 101; 99; 116; 105; 111; 110; 32; 123; 73; 110; 116; 114; 111; 125; 32; 116; 101; 120;
+   116; 32; 36; 120; 94; 50; 36; 32; 97; 110; 100; 32; 92; 91; 32; 97; 43; 98; 32; 92; 93; 10; 92;
+   116; 101; 120; 116; 98; 102; 10; 123; 98; 111; 108; 100; 125; 32; 92; 99; 105; 116; 101; 32; 91;
+   112; 46; 32; 51; 93; 32; 123; 107; 101; 121; 125; 10; 92; 98; 101; 103; 105; 110; 123; 105; 116;
+   101; 109; 105; 122; 101; 125; 10; 92; 105; 116; 101; 109; 32; 111; 110; 101; 32; 92; 101; 109;
+   112; 104; 32; 123; 116; 119; 111; 125; 10; 92; 105; 116; 101; 109; 91; 98; 93; 32; 116; 104; 114;
+   101; 101; 10; 92; 101; 110; 100; 123; 105; 116; 101; 109; 105; 122; 101; 125; 10; 92; 98; 101;
+   103; 105; 110; 32; 123; 99; 101; 110; 116; 101; 114; 125; 32; 99; 32; 92; 101; 110; 100; 32; 123;
+   99; 101; 110; 116; 101; 114; 125; 10; 92; 102; 114; 97; 99; 32; 123; 97; 125; 10; 123; 98; 125;
+   32; 101; 110; 100; 32; 37; 32; 100; 111; 110; 101; 10]%N.
+Definition treeB : expr := match parse exB true [] with Ok t => t | Err _ => ERoot [] end.
+Definition treeB' : expr :=
+  match parse (estr treeB) true [] with Ok t => t | Err _ => ERoot [] end.
+
+Example exB_parses : parse exB true [] = Ok treeB.
+Proof. vm_compute. reflexivity. Qed.
+Example exB_size :
+  length exB = 200%nat /\ length (estr treeB) = 191%nat /\
+  length (fst (tokens_of_string exB)) = (9 + length (fst (tokens_of_string (estr treeB))))%nat.
+Proof. vm_compute. repeat split. Qed.
+Example exB_clean : TokInverse.clean exB = true.
+Proof. vm_compute. reflexivity. Qed.
+Example exB_quirk : TokInverse.start_quirk exB = false.
+Proof. vm_compute. reflexivity. Qed.
+Example exB_quirk' : TokInverse.start_quirk (estr treeB) = false.
+Proof. vm_compute. reflexivity. Qed.
+Example exB_hyp : hypb (all_skip []) (fst (tokens_of_string exB)) = true.
+Proof. vm_compute. reflexivity. Qed.
+Example exB_nobare : nobare treeB = true.
+Proof. vm_compute. reflexivity. Qed.
+Example exB_ctx : drop_ctx_ok (fst (tokens_of_string exB)) = true.
+Proof. vm_compute. reflexivity. Qed.
+Example exB_reparses : parse (estr treeB) true [] = Ok treeB'.
+Proof. vm_compute. reflexivity. Qed.
+Example exB_fixed_point : expr_pos_sim treeB treeB' /\ estr treeB' = estr treeB.
+Proof.
+  exact (C16_fixed_point_partial exB [] treeB treeB' exB_parses exB_clean exB_quirk exB_quirk'
+           exB_hyp exB_nobare exB_ctx exB_reparses).
+Qed.
+Example exB_outcome :
+  match parse (estr treeB) true [] with
+  | Ok t' => expr_pos_sim treeB t' /\ estr t' = estr treeB
+  | Err e => e = EOFError \/ e = TypeError \/ e = AssertionError
+  end.
+Proof.
+  exact (C16_reparse_outcome exB [] treeB exB_parses exB_clean exB_quirk exB_quirk'
+           exB_hyp exB_nobare exB_ctx).
+Qed.
+Example exB_retokenize :
+  exists kept, Kept (fst (tokens_of_string exB)) kept /\ estr treeB = texts kept /\
+    tokens_of_string (estr treeB) = (TokInverse.repos 0 kept, TEnd) /\
+    (forall t', parse_tokens kept true [] = Ok t' -> t' = treeB).
+Proof.
+  exact (C16_retokenize exB [] treeB exB_parses exB_clean exB_quirk exB_quirk'
+           exB_hyp exB_nobare exB_ctx).
+Qed.
+
+(* ---- necessity of the side conditions, at the level of `parse` *)
+
+(* '\left {x}': the sizing prefix fuses with the brace.
+   real code: str(parse('\left {x}')) == '\left{x}', whose parse has a command
+   named 'left{' followed by two text nodes, instead of 'left' with one
+   argument; the TEXT is still a fixed point, the tree shape is not. *)
+Theorem C16_sizing_needed :
+  exists s t t',
+    parse s true [] = Ok t /\ TokInverse.clean s = true /\ TokInverse.start_quirk s = false /\
+    TokInverse.start_quirk (estr t) = false /\
+    hypb (all_skip []) (fst (tokens_of_string s)) = true /\ nobare t = true /\
+    drop_ctx_ok (fst (tokens_of_string s)) = false /\
+    parse (estr t) true [] = Ok t' /\ ~ expr_pos_sim t t' /\ estr t' = estr t.
+Proof.
+  exists [92; 108; 101; 102; 116; 32; 123; 120; 125]%N. eexists. eexists.
+  split; [vm_compute; reflexivity|].
+  split; [vm_compute; reflexivity|]. split; [vm_compute; reflexivity|].
+  split; [vm_compute; reflexivity|]. split; [vm_compute; reflexivity|].
+  split; [vm_compute; reflexivity|]. split; [vm_compute; reflexivity|].
+  split; [vm_compute; reflexivity|].
+  split; [apply not_sim; vm_compute; discriminate | vm_compute; reflexivity].
+Qed.
+
+(* 'a\b {ccccccccc}\x': dropping the spacer moves the second escape to index
+   14 = max sizing-command length, which switches on the index-0 quirk of the
+   tokenizer: the first token 'a' of the output is a CommandName, not Text.
+   real code: the text is a fixed point and the node names agree; the two
+   trees differ in the category of the first text token. *)
+Theorem C16_quirk_needed :
+  exists s t t',
+    parse s true [] = Ok t /\ TokInverse.clean s = true /\ TokInverse.start_quirk s = false /\
+    TokInverse.start_quirk (estr t) = true /\
+    hypb (all_skip []) (fst (tokens_of_string s)) = true /\ nobare t = true /\
+    drop_ctx_ok (fst (tokens_of_string s)) = true /\
+    parse (estr t) true [] = Ok t' /\ ~ expr_pos_sim t t' /\ estr t' = estr t.
+Proof.
+  exists [97; 92; 98; 32; 123; 99; 99; 99; 99; 99; 99; 99; 99; 99; 125; 92; 120]%N.
+  eexists. eexists.
+  split; [vm_compute; reflexivity|].
+  split; [vm_compute; reflexivity|]. split; [vm_compute; reflexivity|].
+  split; [vm_compute; reflexivity|]. split; [vm_compute; reflexivity|].
+  split; [vm_compute; reflexivity|]. split; [vm_compute; reflexivity|].
+  split; [vm_compute; reflexivity|].
+  split; [apply not_sim; vm_compute; discriminate | vm_compute; reflexivity].
+Qed.
+
+(* the Comment clause of drop_ctx_ok excludes harmless inputs: '%c' eol '{x}'
+   is a fixed point of the real code and of the model (the spacer after the
+   comment is not in argument position, so it is not dropped), yet
+   drop_ctx_ok rejects it.  No parse-level witness of necessity exists for
+   this clause as far as we know: see the report. *)
+Example comment_clause_overcautious :
+  let s := [37; 99; 10; 123; 120; 125]%N in
+  exists t, parse s true [] = Ok t /\ estr t = s /\
+            drop_ctx_ok (fst (tokens_of_string s)) = false.
+Proof. cbv zeta. eexists. split; [vm_compute; reflexivity|]. vm_compute. split; reflexivity. Qed.
